@@ -41,3 +41,11 @@ VARIANTS = [
 VARIANTS += [
     v("c15-f32-products", "        x = float64(xx[i])\n        y = float64(yy[i])\n", "        x = xx[i]\n        y = yy[i]\n", names="R-ACC", note="seeded C15a: float32 squares"),
 ]
+
+VARIANTS += [
+    v("c15-dims-reversed", "dims=xx.dims[1:], coords=coords", "dims=xx.dims[:0:-1], coords=coords", file=A, names="autocorr", note="y/x labels swapped on the time-first arm"),
+    v("c15-coords-all", "coords = {k: c for k, c in xx.coords.items() if k != \"time\"}", "coords = {k: c for k, c in xx.coords.items() if k in xx.dims[1:]}", file=A, names="autocorr",
+      note="non-index coordinates are dropped"),
+    v("c15-twin-coordvars", "coords = {k: c for k, c in xx.coords.items() if k != \"time\"}", "coords = {name: co for name, co in xx.coords.items() if name != \"time\"}", file=A, expect="silent"),
+    v("c15-nodata-truthy", 'if (nodata := xx.attrs.get("nodata", None)) is None:\n            warn(', 'nodata = xx.attrs.get("nodata", None)\n        if not nodata:\n            nodata = None\n            warn(', file=A, names="R-TRUTHY"),
+]
